@@ -1944,7 +1944,7 @@ def run(ctx: Ctx, driver: Driver):
 
 def replay(ctx: Ctx, driver: Driver, case):
     n = len(ctx.violations)
-    if case.get("stream") == "micro":
+    if case.get("stream") in ("micro", "m4-close-probe"):
         from harness.c08_micro import replay_micro
         return replay_micro(ctx, driver, case)
     if case.get("stream") == "multi":
